@@ -284,6 +284,30 @@ func runC29(c *eng.Ctx) {
 		}
 		order := haltC != nil && saveC != nil && resC != nil && saveC.Block().Dominates(resC.Block())
 		c.Check("R7", "reset-order", reset.Pos(), order, "the archive is cleared before the session is resumed")
+		// … and only after a running loop was stopped: every way to the archive
+		// write either passes through the halt or established that no loop runs
+		// (a loop still running would write its in-memory ancestor back).
+		if haltC != nil && saveC != nil {
+			paths, complete := eng.EnumPaths(reset.Blocks[0], func(b *ssa.BasicBlock) bool { return b == saveC.Block() }, 2000)
+			nTo, bad := 0, 0
+			if saveC.Block() == reset.Blocks[0] {
+				// the write happens before any test: nothing was halted
+				nTo, bad = 1, 1
+				if haltC.Block() == saveC.Block() && eng.InstrIndex(haltC) < eng.InstrIndex(saveC) {
+					bad = 0
+				}
+			}
+			for _, p := range paths {
+				if p.Last() != saveC.Block() {
+					continue
+				}
+				nTo++
+				if !p.Contains(haltC.Block()) && !pathHas(p, `^\(p0\.cancel == nil\)$`, true) {
+					bad++
+				}
+			}
+			c.Check("R7", "reset-halts-before-clearing", saveC.Pos(), complete && nTo > 0 && bad == 0, "the archive is cleared only after a running loop was halted (or none was running)", fmt.Sprintf("%d of %d paths reach the write with the loop possibly running", bad, nTo))
+		}
 		// resume only if it was running, under the same flag as the halt
 		if haltC != nil && resC != nil {
 			hg, rg := eng.Guards(haltC), eng.Guards(resC)
